@@ -4,7 +4,12 @@ import PynguinModel.Model.Repro
 
 * `{"sort": {"names": [...]}}` → `sorted(names)` as the model computes it;
 * `{"append": {"self": TC, "other": [Stmt], "start": n, "orders": [[name]], "draws": [n]}}` →
-  the state after the repaired `self.append_test_case_from(other, start)`. -/
+  the state after the repaired `self.append_test_case_from(other, start)`;
+* `{"render": {"v": PyVal}}` (set nodes list their members in the iteration order the
+  implementation saw) → the text of `_value_to_cst(value)` for the repaired renderer (`sorted`) and
+  for the original one (`hashorder`);
+* `{"subseed": {"seed": n, "total": n, "cap": i}}` → the seeds of the sampling streams
+  `FirstOrderMutator._select_mutations` creates. -/
 open Lean PynguinModel.Repro
 
 deriving instance FromJson for Stmt
@@ -18,9 +23,13 @@ structure AppendCase where
   draws : List Nat
   deriving FromJson
 
+deriving instance FromJson for PyVal
+
 inductive Case where
   | sort (names : List String)
   | append (c : AppendCase)
+  | render (v : PyVal)
+  | subseed (seed : Nat) (total : Nat) (cap : Int)
   deriving FromJson
 
 def optJ {α} [ToJson α] : Option α → Json
@@ -32,6 +41,10 @@ def stmtJ (s : Stmt) : Json :=
 
 def runCase : Case → Json
   | .sort names => Json.mkObj [("sorted", toJson (sortNames names))]
+  | .render v =>
+    Json.mkObj [("sorted", toJson (render true (fun l => l) v)),
+                ("hashorder", toJson (render false (fun l => l) v))]
+  | .subseed seed total cap => Json.mkObj [("seeds", toJson (samplingSeeds seed total cap))]
   | .append c =>
     if c.orders.length != (c.other.drop c.start).length then
       Json.mkObj [("bad-op", "orders do not match the tail")]
